@@ -4,8 +4,8 @@ package kernel
 // BadgerStore) gets funded outputs with many keys; transactions spending them with many
 // signatures (signed envelope >> unsigned payload) are queued through the real
 // CacheQueueTransaction, and the real popAndProcessCacheQueue forms its batch. The harness
-// records, per run, the accounted size (ValidatedSize) and the signed size (len(Marshal())) of
-// every queued transaction, which of them the batcher admitted (the self snapshot it appended
+// records, per run, the unsigned payload length and the signed size (len(Marshal()), what the
+// batcher accounts) of every queued transaction, which of them the batcher admitted (the self snapshot it appended
 // to the chain's cache pool), and writes the admitted envelopes to a file for the p2p harness,
 // which feeds them to the real message builders. TLC (Trace_Transport.tla) is the judge.
 
@@ -104,6 +104,9 @@ func vtrSetupNode(t testing.TB) *Node {
 	if err != nil {
 		t.Fatal(err)
 	}
+	// transactions the batcher does not keep are sent to a neighbour through the real peer (no
+	// connections: the message is built, wrapped for relaying, and dropped)
+	node.Peer = p2p.NewPeer(node, node.IdForNetwork, "127.0.0.1:0", false)
 	return node
 }
 
@@ -312,11 +315,12 @@ func TestVerifTransportBatcher(t *testing.T) {
 					b = append(b, i)
 				}
 			}
-			if len(batch) == 0 {
-				batch = b
-			} else {
-				others = append(others, b)
+			// transactions the batcher does not keep may be proposed one by one before the batch is
+			// appended: the batch is the LAST self snapshot (the first transaction of a queue is always kept)
+			if len(batch) > 0 {
+				others = append(others, batch)
 			}
+			batch = b
 		}
 		// what the batcher accounts per transaction is ValidatedSize(), set by the Validate call it
 		// makes on its own copy; the harness validates its copy of the first transaction with the
